@@ -11,7 +11,8 @@ PRECS = {"s": 1, "d": 2, "c": 3, "z": 4}
 def driver(prec="d", variant="verif"):
     return build.harness("drv_api_" + prec, ["drv_api.c", "verif_rt.c", "verif_wrap_lacon.c"], variant=variant, defines=["PREC=%d" % PRECS[prec]],
                          wrap=["xerbla_", "malloc", "free", "calloc", "pthread_mutex_unlock", "slacon_", "dlacon_", "clacon_", "zlacon_", "sp_strsv", "sp_dtrsv", "sp_ctrsv", "sp_ztrsv", "sgscon", "dgscon", "cgscon", "zgscon",
-                               "sgsrfs", "dgsrfs", "cgsrfs", "zgsrfs", "sgstrs", "dgstrs", "cgstrs", "zgstrs", "sp_sgemv", "sp_dgemv", "sp_cgemv", "sp_zgemv"])
+                               "sgsrfs", "dgsrfs", "cgsrfs", "zgsrfs", "sgstrs", "dgstrs", "cgstrs", "zgstrs", "sp_sgemv", "sp_dgemv", "sp_cgemv", "sp_zgemv"]
+                         + [p + k for p in "sdcz" for k in ("lsolve", "usolve", "matvec", "trsv_")])
 
 
 # ---------------------------------------------------------------- history enumeration
